@@ -66,7 +66,13 @@ Definition judge (c : case) : N :=
       let known := forallb (fun c => (c <? 2)%N) perkey in
       let agree := negb known ||
                    ((v =? predict_block false perkey)%N && (x =? predict_block true perkey)%N) in
-      verdict agree ((v <? 2)%N && (x <? 2)%N && (v =? x)%N)
+      (* spec, on the implementation's own answers and without the model function: no panic, no hang, the modes
+         agree - and, when every key alone answered (accepted / rejected), the block is accepted in a mode exactly
+         when EVERY key alone is (C11_validation_accepts_iff_every_key_accepts read as a statement about the code:
+         the setup runs for every key of the block, for that key) *)
+      let every := forallb (fun c => (c =? 0)%N) perkey in
+      verdict agree ((v <? 2)%N && (x <? 2)%N && (v =? x)%N &&
+                     (negb known || (Bool.eqb (v =? 0)%N every && Bool.eqb (x =? 0)%N every)))
   | CConfSites persite v x =>
       (* model: the blocks are set up in order, each does what it does alone, the first rejected one ends the load,
          in BOTH modes (C11_predict_sites_first_rejected); spec: no panic, no hang, the modes agree - however often
